@@ -273,7 +273,7 @@ func forwardVals(v ssa.Value) []ssa.Value {
 
 // checkPairing implements the Down/Push - Up/Pop pairing rule and the "no other frame-count
 // change" rule; shared by C05 R3, C08 R2 and C20 R2.
-func checkPairing(w *core.World, r *core.Report, rule string) {
+func checkPairing(w *core.World, r *core.Report, rule string, onlyPkgs ...string) {
 	n := 0
 	pairs := []struct {
 		mover, mname string
@@ -286,6 +286,17 @@ func checkPairing(w *core.World, r *core.Report, rule string) {
 	for _, fn := range w.LibFuncs {
 		if core.PkgOf(fn) == "state" || core.PkgOf(fn) == "cache" {
 			continue
+		}
+		if len(onlyPkgs) > 0 {
+			in := false
+			for _, p := range onlyPkgs {
+				if core.PkgOf(fn) == p {
+					in = true
+				}
+			}
+			if !in {
+				continue
+			}
 		}
 		for _, p := range pairs {
 			for _, c := range core.CallsTo(fn, p.mover) {
@@ -337,6 +348,10 @@ func checkPairing(w *core.World, r *core.Report, rule string) {
 			}
 		}
 	}
-	r.Floor(rule, "Down/Up/Reset sites outside state and cache", n, 6)
+	if len(onlyPkgs) == 0 {
+		r.Floor(rule, "Down/Up/Reset sites outside state and cache", n, 6)
+	} else {
+		r.Floor(rule, "Down/Up/Reset sites", n, 2)
+	}
 	_ = strings.TrimSpace
 }
